@@ -267,10 +267,15 @@ def main():
             dict(name="factgen", path="/verif/factgen", serves_properties=[c["property_id"] for c in checks],
                  kind_free_text="rustc_private driver: dumps built MIR (resolved callees, named field projections), type tables and consts of every workspace crate as JSON lines"),
             dict(name="avlint", path="/verif/avlint", serves_properties=[c["property_id"] for c in checks],
-                 kind_free_text="Python rule engine over the MIR facts: CFG, dominators, must-pass-through / never-reach, backward slicing, field-effect sets, callee summaries"),
+                 kind_free_text="Python rule engine over the MIR facts: CFG, dominators, must-pass-through / never-reach, backward slicing, field-effect sets, callee summaries, byte value-set tables, assumption-conditioned reachability"),
+            dict(name="controls", path="/verif/controls", serves_properties=[c["property_id"] for c in checks],
+                 kind_free_text="miniature good/bad twins per engine primitive, compiled through factgen and evaluated on every check invocation"),
         ],
         checks=checks,
-        notes="All checks are static: they re-extract MIR facts from /repo's current working tree (cached by content hash under /verif/.cache) and evaluate rule instances; nothing of /repo is executed.",
+        notes="All checks are static: they re-extract MIR facts from /repo's current working tree (cached by content hash under /verif/.cache) and evaluate rule instances; nothing of /repo is executed. "
+              "Every invocation first runs the engine controls (good/bad twins in /verif/controls through the same driver; failure = exit 2, no verdict). "
+              "quick: workspace feature set. thorough: additionally re-decides C09/C10/C11/C12 on the cfg variant `web-lean` (no compress-*, no unicode: extractors read the payload directly, router uses regex-lite) "
+              "and runs the mutation self-test of the property's rules (mutants/<id>/*.diff applied to a scratch copy under mktemp, re-extracted, rules must fire; result is recorded in evidence.coverage.selftest and never changes the exit code).",
         not_applicable=na,
     )
     json.dump(m, open(os.path.join(VERIF, "MANIFEST.json"), "w"), indent=1)
